@@ -138,7 +138,7 @@ class Variants(Component):
     rule = "non-empty result; some n_jobs yields >=2 contributing chunks and >=1 empty chunk"
 
     def examples(self, tier):
-        return 100 if tier == "quick" else 800
+        return 100 if tier == "quick" else 600
 
     def budget_s(self, tier):
         return 240 if tier == "quick" else 2400
